@@ -286,6 +286,8 @@ def check_history(case, sess: Session):
                     res[name] = {"r": r, "t1": cap.get("t1"), "t2": cap.get("t2"), "t2_stage_hits": h1 - h0, "turn_hit": bool(rec2.get("cache_hit"))}
                 sess.evaluations += 1
                 sess.count("twin_turns")
+                if oi == len(case["ops"]) - 1:
+                    sess.sample({"mutation_kind": kind, "cache_variant": case["variant"], "cfg": case["cfg"], "ops": case["ops"]})
                 tcase = {"world": case["world"], "cfg": case["cfg"], "ops": case["ops"][:oi + 1], "kind": kind, "variant": case["variant"]}
                 c, u = res["C"], res["U"]
                 if c["r"]["exc"] or u["r"]["exc"]:
